@@ -150,10 +150,11 @@ impl PanicInfo {
                 // keep crate-relative path
                 let head = &self.file[..i];
                 let krate = head.rsplit('/').next().unwrap_or("");
-                let krate = if krate == "repo" || krate.starts_with("wt-") || krate.starts_with("smoltcp") {
-                    "smoltcp"
-                } else {
+                // anything that is not a registry / toolchain path is the tree under test
+                let krate = if self.file.contains("/.cargo/") || self.file.contains("/rustc/") || self.file.contains("/rustlib/") {
                     krate
+                } else {
+                    "smoltcp"
                 };
                 format!("{}{}", krate, &self.file[i..])
             }
